@@ -74,8 +74,15 @@ func (c *c17ctx) sanitized(v ssa.Value, depth int) (bool, string) {
 		}
 		return false, "passes through " + name + " at " + c.p.Pos(x.Pos()) + ", which is not an identity on cleaned POSIX paths"
 	case *ssa.Phi:
-		for _, e := range x.Edges {
+		for k, e := range x.Edges {
 			if ok, why := c.sanitized(e, depth+1); !ok {
+				// the value arrives uncleaned, but over the edge on which it is known to contain no "/.": every segment of a
+				// rooted path follows a slash, so it has no "." or ".." segment (rootedness of e is C17-R2's obligation)
+				if cc := noDotSegmentEdge(x.Block().Preds[k], x.Block(), e); cc != nil {
+					c.cleans = append(c.cleans, cc)
+					c.argOf[cc] = e
+					continue
+				}
 				return false, why
 			}
 		}
@@ -91,6 +98,33 @@ func (c *c17ctx) sanitized(v ssa.Value, depth int) (bool, string) {
 		return false, "string arithmetic after cleaning (" + sx.ValPath(v) + ")"
 	}
 	return false, "derives from " + sx.ValPath(v)
+}
+
+// noDotSegmentEdge: pred ends in `if strings.Contains(v, "/.")` and succ is its false successor only.
+func noDotSegmentEdge(pred, succ *ssa.BasicBlock, v ssa.Value) *ssa.Call {
+	if len(pred.Instrs) == 0 {
+		return nil
+	}
+	iff, ok := pred.Instrs[len(pred.Instrs)-1].(*ssa.If)
+	if !ok {
+		return nil
+	}
+	want := 1
+	cond := iff.Cond
+	if u, isNot := cond.(*ssa.UnOp); isNot && u.Op == token.NOT {
+		cond, want = u.X, 0
+	}
+	cc, ok := cond.(*ssa.Call)
+	if !ok || sx.CalleeName(cc) != "strings.Contains" || cc.Call.Args[0] != v {
+		return nil
+	}
+	if k, isC := sx.ConstString(cc.Call.Args[1]); !isC || k != "/." {
+		return nil
+	}
+	if pred.Succs[want] != succ || pred.Succs[1-want] == succ {
+		return nil
+	}
+	return cc
 }
 
 // leadingSlashEdges: the CFG edges on which v is known to start with '/': the true edge of `v[0] == '/'` (false edge
@@ -260,7 +294,7 @@ func runC17(p *core.Prog, r *core.Report) {
 	r.Rule("C17-R1", "every non-base argument of the returned filepath.Join derives only from path.Clean (through identity-on-POSIX wrappers); the first argument is the base parameter; the raw URL path reaches Join by no other route", 2)
 	r.Rule("C17-R2", "the argument of path.Clean starts with '/' on every path (constant prefix, or the parameter on an edge where p[0] == '/' is established); the index p[0] is guarded by a non-empty test", 1)
 	r.NotDecided = append(r.NotDecided, "Windows volume/backslash semantics", "that the result for dot-free paths is the plain join is filepath.Join's contract")
-	r.Trusted = append(r.Trusted, "path.Clean: a rooted path stays rooted and loses every '..' element", "filepath.Join(base, rooted-clean-suffix) is Clean(base) or below", "filepath.FromSlash is the identity on POSIX")
+	r.Trusted = append(r.Trusted, "path.Clean: a rooted path stays rooted and loses every '..' element", "filepath.Join(base, rooted-clean-suffix) is Clean(base) or below", "filepath.FromSlash is the identity on POSIX", "a rooted slash path that does not contain \"/.\" has no '.' or '..' segment (every segment follows a slash); filepath.Join cleans repeated and trailing slashes")
 
 	fn := p.Func("util/fsutil", "ResolveUrlPath")
 	if fn == nil {
@@ -275,6 +309,11 @@ func runC17(p *core.Prog, r *core.Report) {
 		for _, lf := range leaves(ret.Results[0]) {
 			if call, ok := lf.(*ssa.Call); ok && sx.CalleeName(call) == "path/filepath.Join" {
 				join = call
+			} else if call, ok := lf.(*ssa.Call); ok && sx.CalleeName(call) == "path/filepath.Clean" && fromParam(call.Call.Args[0], fn, 0) {
+				// the cleaned base itself (a belt-and-braces fallback): "the base itself" is within the property
+				r.OK("C17-R1", c+": fallback result is the base itself", p.Pos(ret.Pos()), "filepath.Clean(base)")
+			} else if fromParam(lf, fn, 0) {
+				r.OK("C17-R1", c+": fallback result is the base itself", p.Pos(ret.Pos()), "the base parameter")
 			} else {
 				r.Fail("C17-R1", c+": result is a Join", p.Pos(ret.Pos()), "returned value "+sx.ValPath(lf)+" is not the result of filepath.Join(base, cleaned)")
 			}
@@ -305,7 +344,7 @@ func runC17(p *core.Prog, r *core.Report) {
 		}
 		seen[cl] = true
 		ok, why := rootedAt(p, ctx.argOf[cl], cl, 0)
-		r.Check(ok, "C17-R2", "argument of path.Clean in "+fnName(cl.Parent())+" is rooted", p.Pos(cl.Pos()), "starts with '/' on every path", why+": path.Clean keeps leading '..' elements of a non-rooted path, the join would climb out of the base")
+		r.Check(ok, "C17-R2", "argument of "+short(sx.CalleeName(cl))+" in "+fnName(cl.Parent())+" is rooted", p.Pos(cl.Pos()), "starts with '/' on every path", why+": path.Clean keeps leading '..' elements of a non-rooted path, the join would climb out of the base")
 	}
 	// p[0] guarded by non-empty test
 	sx.Instrs(fn, func(in ssa.Instruction) {
